@@ -426,13 +426,18 @@ where
 
     unsafe fn maybe_changed_after(
         &self,
-        _zalsa: &Zalsa,
+        zalsa: &Zalsa,
         db: RawDatabase<'_>,
         input: Id,
         revision: Revision,
     ) -> VerifyResult {
+        // A memo restored from a persisted database can depend on a function that has not been
+        // called on this database yet, so validation may be the first access to this ingredient.
+        let view_caster = self
+            .view_caster
+            .get_or_init(|| *zalsa.views().downcaster_for::<C::DbView>());
         // SAFETY: The `db` belongs to the ingredient as per caller invariant
-        let db = unsafe { self.view_caster().downcast_unchecked(db) };
+        let db = unsafe { view_caster.downcast_unchecked(db) };
         self.maybe_changed_after(db, input, revision)
     }
 
